@@ -592,7 +592,7 @@ pub fn run(ctx: &mut LaneCtx) {
     ctx.run_sub(
         SubSpec {
             name: "faults-and-signals",
-            cases: (48, 2_000),
+            cases: (64, 2_000),
             rule: "per generated scenario (1..12 sleeper/parked/spinner/exiter threads, signal schedule of up to 9 entries over 7 phase points x thread x {SIGUSR1,SIGHUP,SIGRTMIN+0..3} x count 1..5, StopProcess fail point on/off, exiters cued at the threads-enumerated hook): one fault-free dump with the schedule, then EVERY destination call failing as I/O error and as panic (exhaustive per scenario), sampled fail-point subsets and two natural hard errors; after each of them the liveness predicate, after the first the signal accounting; every scenario is non-trivial; distinct = hash of scenario",
             strategy: case_strategy().boxed(),
             max_shrink_iters: 40,
@@ -603,7 +603,7 @@ pub fn run(ctx: &mut LaneCtx) {
     ctx.run_sub(
         SubSpec {
             name: "rt-signal-storm",
-            cases: (32, 1_500),
+            cases: (48, 1_500),
             rule: "1..3 sleeper threads bombarded with a queued realtime signal from a harness thread while 8..31 dumps are taken with the process not group-stopped (StopProcess fail point), so that signals arrive at arbitrary instants of attach/wait/detach (sampled, not owned, interleavings); oracle = every successfully queued signal is delivered exactly once after the storm, threads alive; every case non-trivial; distinct = hash of case",
             strategy: (0u8..3, any::<u8>(), 0u8..4).prop_map(|(sleepers, dumps, slot)| StormCase { sleepers, dumps, slot }).boxed(),
             max_shrink_iters: 0,
